@@ -463,7 +463,11 @@ func (g *graph) addBranch(startNode string, branch *GraphBranch, skipData bool) 
 	}
 	branch.idx = len(g.handlerPreBranch[startNode])
 
-	if startNode != START && g.nodes[startNode].executorMeta.component == ComponentOfPassthrough {
+	// a passthrough start node takes the branch's input type only while its own type is still
+	// unknown; once inferred (from an edge or an earlier branch) the type is kept and the branch
+	// input is validated against it below, like for any other node.
+	if startNode != START && g.nodes[startNode].executorMeta.component == ComponentOfPassthrough &&
+		g.nodes[startNode].cr.inputType == nil {
 		g.nodes[startNode].cr.inputType = branch.inputType
 		g.nodes[startNode].cr.outputType = branch.inputType
 		g.nodes[startNode].cr.genericHelper = branch.genericHelper.forPredecessorPassthrough()
